@@ -54,6 +54,8 @@ class Env:
         self.binf = self._mk("data.bin", bytes(range(256)) * 2)
         self.nonascii = self._mk("résumé.txt", b"cv")
         self.empty = self._mk("empty.txt", b"")
+        self.ctlname = self._mk("esc\x1bna\tme\x7f.bin", b"ctl")          # legal file names that are not legal header text
+        self.quotename = self._mk('qu"o\\te;x=1.bin', b"quo")
         self.tree = os.path.join(self.dir, "site")
         os.makedirs(os.path.join(self.tree, "sub"), exist_ok=True)
         for rel, data in (("index.html", b"<h1>root</h1>"), ("a.txt", b"file a"), ("page.html", b"<p>page</p>"),
@@ -102,6 +104,19 @@ def response_recipes():
     for n in (1, 2, 3):
         add("PlainText+%dcookies" % n, lambda i, e, n=n: cookies(i, e, n), 0)
 
+    add("PlainText(headers argument with CRLF)", lambda i, e: pkg(i).PlainTextResponse("h", 200, {"X-Trace": "abc\r\nSet-Cookie: admin=1"}), 0)
+    add("PlainText(headers argument with NUL in a name)", lambda i, e: pkg(i).PlainTextResponse("h", 200, {"X-\x00Trace": "1"}), 0)
+    add("Redirect(headers argument with LF)", lambda i, e: pkg(i).RedirectResponse("/x", 302, {"X-A": "1\nX-B: 2"}), 0)
+
+    def attr_cookie(i, e, **kw):
+        r = pkg(i).PlainTextResponse("c")
+        r.set_cookie("k", "v", **kw)
+        return r
+    # cookie attributes are text too: they must not open a second attribute or header, and Latin-1 text must work on both interfaces
+    for ci, kw in enumerate([dict(path="/a\r\nSet-Cookie: x=1"), dict(domain="ex.com\nX: 1"), dict(path="/p; domain=evil.example"), dict(domain="a.example; secure"),
+                             dict(path="/caf\u00e9"), dict(domain="b\u00fccher.example"), dict(path="/a\x00b")]):
+        add("PlainText+cookie attribute %d" % ci, lambda i, e, kw=kw: attr_cookie(i, e, **kw), 0)
+
     def hostile_cookie(i, e, name, value):
         r = pkg(i).PlainTextResponse("c")
         r.set_cookie(name, value, path="/p")
@@ -122,6 +137,9 @@ def response_recipes():
     add("File(size equals chunk)", lambda i, e: pkg(i).FileResponse(e.small, chunk_size=30), None)
     add("File(empty)", lambda i, e: pkg(i).FileResponse(e.empty), None)
     add("File(non-ascii name)", lambda i, e: pkg(i).FileResponse(e.nonascii), None)
+    add("File(control characters in its name)", lambda i, e: pkg(i).FileResponse(e.ctlname), None)
+    add("File(quote, backslash, semicolon in its name)", lambda i, e: pkg(i).FileResponse(e.quotename), None)
+    add("File(control characters in download_name)", lambda i, e: pkg(i).FileResponse(e.small, download_name="a\x1fb\x08.txt"), None)
     add("File(non-ascii download_name)", lambda i, e: pkg(i).FileResponse(e.small, download_name="文件 é.txt"), None)
     add("File(latin-1 download_name)", lambda i, e: pkg(i).FileResponse(e.small, download_name="café.txt"), None)
     return R
